@@ -606,7 +606,9 @@ func objectPool(c *verifsim.Chooser) (interface{}, string) {
 		}
 		objs := oddObjectsCache
 		o := objs[c.Intn(len(objs))]
-		if strings.Contains(o.name, "deep") {
+		if strings.Contains(o.name, "deep") || strings.HasPrefix(o.name, "forty ") {
+			// (objects that only the tables of C08 pair with scripts that can
+			// afford them: printing a value with 2^40 paths never ends)
 			return nil, "nil"
 		}
 		return o.v, "odd:" + o.name
